@@ -205,6 +205,7 @@ func (u Union) Generate(w io.Writer, settings GenerateSettings) {
 	u.generateEncodeBebop(ew, settings, fields)
 	u.generateDecodeBebop(ew, settings, fields)
 	u.generateSize(ew, settings, fields)
-	isEmpty := len(u.Fields) == 0
-	writeWrappers(ew, u.Name, isEmpty, settings)
+	// a message / union without fields still has a wire form (length prefix and terminator / nothing after the
+	// prefix), so unlike an empty struct it must be written and read like any other
+	writeWrappers(ew, u.Name, false, settings)
 }
